@@ -128,6 +128,20 @@ CLAIMED = {
              "and time.sleep are rebound inside pysmt.smtlib.solver. Blank bytes are not a reply. One known finding "
              "(reset_assertions keeps declared sets) prunes the branches below its trigger.",
         design="§3 C17"),
+    "C18": dict(
+        category="exploration", engine="refsolver",
+        technique="bounded-exhaustive enumeration of finite-domain constraint systems x goals x optimisation routines x "
+                  "strategies x solver histories, with the optimum / lexicographic optimum / Pareto front recomputed by "
+                  "plain enumeration",
+        text="pySMT's SUAOptimizerMixin and IncrementalOptimizerMixin are mixed into the exhaustive BruteSolver exactly "
+             "as optimization/z3.py mixes them into Z3Solver; every conjunction of <=2 (thorough <=3) atoms of a 13-atom "
+             "pool over Bool, BV2 (thorough BV3) and range-bounded Int x 18 goals (Int, unsigned/signed BV, MaxSMT with "
+             "int/real weights, MinMax/MaxMin) x optimize/boxed/lexicographic/Pareto x linear/binary x two start states "
+             "is executed; optimum, model, 'no solution', termination (step budget) and restoration of the assertion "
+             "stack (list, depth, native solver, a later user pop) are checked.",
+        note="Trusted: mc/core/refsolver.py and refsem. Int symbols are range-asserted so enumeration is exact. "
+             "Bisection over real-valued objectives is not claimed (statement).",
+        design="§3 C18"),
     "C19": dict(
         category="model_checking", engine="sched",
         technique="stateless model checking of Portfolio._solve/_run_solver under a controlled scheduler: every "
@@ -172,6 +186,8 @@ for i in range(1, 21):
     PENDING["C%02d" % i] = "check designed in DESIGN.md §3 but not built yet in this revision; no claim is made"
 
 ENGINES = [
+    dict(name="refsolver", path="mc/core/refsolver.py", serves_properties=["C16", "C18"],
+         kind_free_text="exhaustive brute-force solver following the protocol of the concrete pySMT solvers"),
     dict(name="sched", path="mc/core/sched.py", serves_properties=["C19"],
          kind_free_text="controlled scheduler (virtual Process/Queue/Pipe), DFS over all schedules with replayed prefixes, optional preemption bound"),
     dict(name="workmon", path="mc/core/workmon.py", serves_properties=["C20"],
